@@ -503,7 +503,7 @@ def sig_variants(d, zf, dother):
     out["otherkey"] = R.der_sig(*R.ecdsa_sign(dother, zf(1))) + b"\x01"
     out["badr"] = R.der_sig(r ^ 1, s) + b"\x01"
     out["empty"] = b""
-    for ht in (0, 2, 3, 4, 0x41, 0x80, 0x81, 0x82, 0x83, 0x84, 0xff):
+    for ht in (0, 2, 3, 4, 0x21, 0x22, 0x23, 0x41, 0x42, 0x43, 0x62, 0x80, 0x81, 0x82, 0x83, 0x84, 0xa2, 0xc3, 0xff):
         out["ht%02x" % ht] = R.der_sig(*R.ecdsa_sign(d, zf(ht))) + bytes([ht])
     out["wronght"] = der + b"\x02"
     out["s_half+1"] = R.der_sig(5, R.N // 2 + 1) + b"\x01"
@@ -531,6 +531,19 @@ def sig_variants(d, zf, dother):
     out["r33"] = b"\x30" + bytes([len(der) - 2 + 34 - 2 - rl]) + b"\x02\x21\x01" + b"\x00" * 32 + bytes(dd[4 + rl:]) + b"\x01"
     out["garbage"] = b"\x01\x02\x03"
     out["one"] = b"\x01"
+    # DER cut short at every structural point (the lax parser must simply fail: the signature is then just invalid)
+    out["trunc-30"] = b"\x30" + b"\x01"
+    out["trunc-30-len"] = b"\x30\x01" + b"\x01"
+    out["trunc-3002-02"] = b"\x30\x02\x02" + b"\x01"
+    out["trunc-r-len"] = bytes(dd[:4]) + b"\x01"
+    out["trunc-in-r"] = bytes(dd[:4 + rl // 2]) + b"\x01"
+    out["trunc-after-r"] = bytes(dd[:4 + rl]) + b"\x01"
+    out["trunc-s-tag"] = bytes(dd[:5 + rl]) + b"\x01"
+    out["trunc-s-len"] = bytes(dd[:6 + rl]) + b"\x01"
+    out["trunc-in-s"] = bytes(dd[:-2]) + b"\x01"
+    out["r-len-0"] = b"\x30\x06\x02\x00\x02\x02\x00\x01" + b"\x01"
+    out["long-len-80"] = b"\x30\x80" + bytes(dd[2:]) + b"\x01"
+    out["r-long-len-88"] = bytes(dd[:3]) + b"\x88" + bytes(dd[4:]) + b"\x01"
     return out
 
 
